@@ -26,7 +26,7 @@ func directedRefinements(cx *lib.Ctx) {
 	n := cx.Scale(1500, 40000)
 	for i := 0; i < n; i++ {
 		r := R.Fork()
-		shape := r.Intn(7)
+		shape := r.Intn(8)
 		var src string
 		scope := evalgen.Scope{}
 		absVals := map[string]cty.Value{}
@@ -128,6 +128,32 @@ func directedRefinements(cx *lib.Ctx) {
 				{"c": cty.False, "s": cty.StringVal(p1), "t": cty.StringVal(p2 + "2")},
 			}
 			res.Count("directed:cond-prefix")
+		case 7:
+			// equality of constructors that hold a value of wholly unknown type (cty.DynamicVal): nothing about the
+			// answer is known, whatever the other side looks like — the types differ only until the unknown is known
+			pairs := []struct {
+				src  string
+				conc []cty.Value
+			}{
+				{"[v] == [5]", []cty.Value{cty.NumberIntVal(5), cty.NumberIntVal(6), cty.StringVal("5")}},
+				{"[v] != [5]", []cty.Value{cty.NumberIntVal(5), cty.True}},
+				{"{ name = v } == { name = \"a\" }", []cty.Value{cty.StringVal("a"), cty.StringVal("b"), cty.NumberIntVal(1)}},
+				{"{ name = v } != { name = \"a\" }", []cty.Value{cty.StringVal("a"), cty.NullVal(cty.String)}},
+				{"[[v]] == [[true]]", []cty.Value{cty.True, cty.False}},
+				{"[1, v] == [1, \"x\"]", []cty.Value{cty.StringVal("x"), cty.StringVal("y")}},
+				{"{ a = [v], b = 2 } == { a = [null], b = 2 }", []cty.Value{cty.NullVal(cty.DynamicPseudoType), cty.NumberIntVal(2)}},
+				{"[v] == [[]]", []cty.Value{cty.EmptyTupleVal, cty.ListValEmpty(cty.String)}},
+				{"[v] == [5] ? 1 : 2", []cty.Value{cty.NumberIntVal(5), cty.NumberIntVal(7)}},
+				{"v == 5", []cty.Value{cty.NumberIntVal(5), cty.StringVal("5")}},
+			}
+			p := pairs[r.Intn(len(pairs))]
+			src = p.src
+			scope["v"] = p.conc[0]
+			absVals["v"] = cty.DynamicVal
+			for _, cv := range p.conc {
+				concs = append(concs, map[string]cty.Value{"v": cv})
+			}
+			res.Count("directed:equality-with-dynamic-part")
 		case 6:
 			// an unknown key into a known collection that holds unknown elements: whatever is said about the
 			// result (not null, a range, a prefix) must also hold when the key selects an element that is
